@@ -59,6 +59,9 @@ def cases(tier, seed):
     for d in BOUNDS[tier]["devices"]:
         meshes.get_device(d, seed)
         out.append(Case(f"solution:{d}", kind="solution", dev=d, seed=seed, steps=BOUNDS[tier]["steps"], tier=tier))
+        # no output file requested (the run writes to a temporary directory that is gone afterwards): the
+        # solution is saved later from memory; two options (output_file, terminal_psi) are None at once
+        out.append(Case(f"solution-from-memory:{d}", kind="solution", dev=d, seed=seed, steps=BOUNDS[tier]["steps"], tier="quick", temp=True))
         out.append(Case(f"mesh:{d}", kind="mesh", dev=d, seed=seed))
     return out
 
@@ -154,6 +157,9 @@ def body_solution(H, case, work):
             (False, True, True, "sym", 3, 1, 10),
             (False, False, False, "none", 3, 2, 10),
         ])
+    temp = bool(case.params.get("temp"))
+    if temp:
+        tp_kind = "none"
     tp = {"zero": 0.0, "none": None, "sym": H.real("tp", lo=0.0, hi=1.0)}[tp_kind]
     num = dict(
         dt_init=H.real("dt_init", lo=0.5, hi=1.0), dt_max=H.real("dt_max", lo=1.0, hi=2.0), skip_time=0.0,
@@ -164,7 +170,7 @@ def body_solution(H, case, work):
     T = H.real("T", lo=0.6, hi=0.9)  # 2 steps of size >= 1/2
     opts = tdgl.SolverOptions(solve_time=T, adaptive=adaptive, pause_on_interrupt=pause, include_screening=screening, terminal_psi=tp,
                               max_solve_retries=retries, adaptive_window=window, save_every=k, progress_interval=0,
-                              output_file=work + "/out.h5", field_units="uT", current_units="nA", **num)
+                              output_file=None if temp else work + "/out.h5", field_units="uT", current_units="nA", **num)
     expected = dataclasses.asdict(opts)
     solver = S.make_solver(H, dev, opts, validate=False, A=0.25)
     calls = dict(n=0)
@@ -185,6 +191,13 @@ def body_solution(H, case, work):
     sol = solver.solve()
     H.prove("solve() returns a solution", sol is not None)
     if sol is None:
+        return
+    if temp:
+        H.prove("without an output file the run's temporary file is gone afterwards", not sol.saved_on_disk)
+        alone_path = work + "/alone.h5"
+        sol.to_hdf5(alone_path)
+        alone = Solution.from_hdf5(alone_path)
+        same_solution(H, "stand-alone file saved from memory", alone, sol, expected)
         return
     loaded = Solution.from_hdf5(sol.path)
     # ---- options, field by field ----------------------------------------------------------------
